@@ -48,7 +48,9 @@ def strip_conv(t):
 
 
 def sname(v):
-    """printable name of a scan state: the variant's name, or true/false for a flag"""
+    """printable name of a scan state: the variant's name (with the constants it carries), or true/false for a flag"""
+    if v[0] == "variant" and len(v) > 3:
+        return "%s(%s)" % (v[2], ", ".join(str(x).lower() if isinstance(x, bool) else str(x) for x in v[3]))
     return v[2] if v[0] == "variant" else str(v[1])
 
 
@@ -70,7 +72,15 @@ def exit_region(body, S, loop_blocks, start, state):
                 local, is_d, variants_, neg = sl
                 keep = []
                 for (lab, tg) in body.edges(b):
-                    if is_d and state[0] == "variant":
+                    if isinstance(is_d, tuple) and is_d[0] == "payload":
+                        # the test of a constant carried by the state's variant: only meaningful in that variant
+                        if state[0] == "variant" and len(state) > 3 and state[2] == is_d[1] and isinstance(state[3][is_d[2]], bool):
+                            val = state[3][is_d[2]] != neg
+                            if (lab == ("sw", 0) and not val) or (lab == "otherwise" and val):
+                                keep.append(tg)
+                        else:
+                            keep.append(tg)
+                    elif is_d and state[0] == "variant":
                         idx = list(variants_).index(state[2]) if state[2] in variants_ else None
                         others = [l_[1] for (l_, _) in body.edges(b) if l_ != "otherwise"]
                         if (lab != "otherwise" and lab[1] == idx) or (lab == "otherwise" and idx not in others):
